@@ -150,7 +150,7 @@ Definition Acc0 (s : mq) : Prop := Forall BInv (builders s) /\ alloc s = qsum (b
 Definition AccInvS (s : mq) : Prop :=
   Forall BInv (builders s) /\
   match ph s with
-  | PExited => alloc s = 0 /\ done s = true
+  | PExited => alloc s = 0 /\ done s = true /\ builders s = []
   | PConnect b _ _ | PSend b _ => BInv b /\ alloc s = qsum (builders s) + b_blk b
   | _ => alloc s = qsum (builders s)
   end.
@@ -179,6 +179,29 @@ Proof.
     destruct (IH s2 (out_app acc o) (conj A B)) as (X & Y & Z). repeat split; try apply X; congruence.
 Qed.
 
+Lemma filter_len {A} (f : A -> bool) l : (length (filter f l) <= length l)%nat.
+Proof. induction l as [|x l IH]; simpl; [lia|]. destruct (f x); simpl; lia. Qed.
+
+Lemma skip_empty_len bs : (length (skip_empty bs) <= length bs)%nat.
+Proof. induction bs as [|b bs IH]; simpl; [lia|]. destruct (bld_empty b); simpl; lia. Qed.
+
+Local Transparent publish_error.
+Lemma publish_error_len s b : (length (builders (fst (publish_error s b))) <= length (builders s))%nat.
+Proof.
+  unfold publish_error. cbn [fst set_fields builders].
+  etransitivity; [apply filter_len|]. now rewrite !map_length.
+Qed.
+Local Opaque publish_error.
+
+Lemma drain_empties : forall fuel s acc, (length (builders s) < fuel)%nat -> builders (fst (drain fuel s acc)) = [].
+Proof.
+  induction fuel as [|f IH]; intros s acc Hl; [lia|]. simpl.
+  pose proof (skip_empty_len (builders s)) as Hk. destruct (skip_empty (builders s)) as [|b rest] eqn:E; [reflexivity|].
+  set (s1 := set_fields s rest (alloc s) (has_sender s) (work s) (done s) (ph s) (closed s)).
+  pose proof (publish_error_len s1 b) as Hp. destruct (publish_error s1 b) as [s2 o]. cbn [fst] in *.
+  apply IH. simpl in Hp, Hk. lia.
+Qed.
+
 Local Arguments drain : simpl never.
 
 Lemma run_loop_acc : forall fuel s acc, Acc0 s -> ph s = PIdle -> AccInvS (fst (run_loop fuel s acc)).
@@ -191,6 +214,7 @@ Proof.
       * apply IH; [split; simpl; [constructor | unfold qsum in *; simpl in *; lia] | reflexivity].
       * inversion HF' as [|? ? Hb Hr]; subst. destruct (has_sender s); simpl; (split; [exact Hr | split; [exact Hb | unfold qsum in *; simpl in *; lia]]).
     + pose proof (drain_acc (S (length (builders s))) s acc (conj HF Ha)) as (X & _ & _).
+      pose proof (drain_empties (S (length (builders s))) s acc (le_n _)) as Y.
       destruct (drain (S (length (builders s))) s acc) as [s1 o]. simpl in *. split; [apply X | simpl; auto].
     + split; [exact HF | exact Ha].
 Qed.
@@ -223,5 +247,331 @@ Proof.
   - destruct Hph as [Hb Ha]. split; [exact Hb | lia].
   - destruct Hph as [Hb Ha]. split; [exact Hb | lia].
   - lia.
-  - destruct Hph as [_ Hd]. congruence.
+  - destruct Hph as (_ & Hd & _). congruence.
 Qed.
+
+(* ---------- every label preserves the accounting invariant ---------- *)
+Lemma acc_idle s : AccInvS s -> ph s = PIdle -> Acc0 s.
+Proof. intros [HF H] Hp. rewrite Hp in H. split; assumption. Qed.
+
+Lemma acc_set_done s : AccInvS s ->
+  AccInvS (set_fields s (builders s) (alloc s) (has_sender s) (work s) true (ph s) (closed s)).
+Proof.
+  intros [HF H]. split; [exact HF|]. cbn [set_fields ph alloc builders MsgQueue.done].
+  destruct (ph s); auto. destruct H as (? & ? & ?); auto.
+Qed.
+
+Lemma run_loop_from s acc : AccInvS s -> ph s = PIdle -> AccInvS (fst (run_loop (loop_fuel s) s acc)).
+Proof. intros H Hp. apply run_loop_acc; [apply acc_idle; assumption | exact Hp]. Qed.
+
+Lemma publish_sent_acc s b : Forall BInv (builders s) -> alloc s = qsum (builders s) + b_blk b ->
+  let s' := fst (publish_sent s b) in
+  Forall BInv (builders s') /\ alloc s' = qsum (builders s') /\ ph s' = ph s.
+Proof. intros HF Ha. unfold publish_sent. simpl. split; [exact HF|]. split; [lia | reflexivity]. Qed.
+
+Local Opaque publish_sent run_loop drain do_build.
+
+Lemma exit_acc s1 : builders s1 = [] ->
+  AccInvS (set_fields s1 (builders s1) 0 false false true PExited (closed s1)).
+Proof. intro HF. split; [simpl; rewrite HF; constructor | simpl; auto]. Qed.
+
+Lemma qstep_acc s l : AccInvS s -> AccInvS (fst (qstep s l)).
+Proof.
+  intro H. destruct l as [r ops|ok| |tw]; unfold qstep.
+  - (* build *)
+    pose proof (do_build_acc s r ops H) as [H1 Hp1]. destruct (do_build s r ops) as [s1 o]. cbn [fst] in *.
+    destruct (ph s1) eqn:Ep; try exact H1. apply run_loop_from; assumption.
+  - (* network outcome *)
+    destruct H as [HF Hph]. destruct (ph s) as [|b i initial|b i| |] eqn:Ep; try (cbn [fst]; split; [exact HF | rewrite Ep; exact Hph]).
+    + destruct Hph as [Hb Ha]. destruct ok.
+      * destruct initial; [split; [exact HF | simpl; auto]|].
+        destruct (Nat.ltb (S i) max_retries); [split; [exact HF | simpl; auto]|].
+        set (s0 := set_fields s (builders s) (alloc s) true (work s) (MsgQueue.done s) PIdle (closed s)).
+        destruct (publish_error_acc s0 b HF Ha) as (A & B & C & _).
+        destruct (publish_error s0 b) as [s1 o]. cbn [fst] in *. apply run_loop_from; [split; [exact A | rewrite C; exact B] | exact C].
+      * set (s0 := set_fields s (builders s) (alloc s) false (work s) (MsgQueue.done s) PIdle (closed s)).
+        destruct (publish_error_acc s0 b HF Ha) as (A & B & C & _).
+        destruct (publish_error s0 b) as [s1 o]. cbn [fst] in *.
+        apply run_loop_from; [split; [exact A | exact B] | reflexivity].
+    + destruct Hph as [Hb Ha]. destruct ok.
+      * set (s0 := set_fields s (builders s) (alloc s) true (work s) (MsgQueue.done s) PIdle (closed s)).
+        destruct (publish_sent_acc s0 b HF Ha) as (A & B & C).
+        destruct (publish_sent s0 b) as [s1 o]. cbn [fst] in *. apply run_loop_from; [split; [exact A | rewrite C; exact B] | exact C].
+      * destruct (MsgQueue.done s) eqn:Ed.
+        -- set (s0 := set_fields s (builders s) (alloc s) false (work s) true PIdle (closed s)).
+           destruct (publish_error_acc s0 b HF Ha) as (A & B & C & _).
+           destruct (publish_error s0 b) as [s1 o]. cbn [fst] in *. apply run_loop_from; [split; [exact A | rewrite C; exact B] | exact C].
+        -- split; [exact HF | simpl; auto].
+  - (* shutdown *)
+    pose proof (acc_set_done s H) as H1. destruct (ph s) eqn:Ep; try exact H1.
+    apply run_loop_from; [exact H1 | reflexivity].
+  - (* which ready case the select took *)
+    destruct (ph s) eqn:Ep; try exact H. destruct H as [HF Ha]. rewrite Ep in Ha. destruct tw.
+    + set (s1 := set_fields s (builders s) (alloc s) (has_sender s) true false PIdle (closed s)).
+      assert (H1 : Acc0 s1) by (split; assumption).
+      pose proof (run_loop_acc 1 s1 out_nil H1 eq_refl) as H2. destruct (run_loop 1 s1 out_nil) as [s2 o]. cbn [fst] in *.
+      pose proof (acc_set_done s2 H2) as H3.
+      set (s3 := set_fields s2 (builders s2) (alloc s2) (has_sender s2) (work s2) true (ph s2) (closed s2)) in *.
+      destruct (ph s3) eqn:Ep3; try exact H3. apply run_loop_from; assumption.
+    + set (s1 := set_fields s (builders s) (alloc s) (has_sender s) false true PIdle (closed s)).
+      assert (H1 : Acc0 s1) by (split; assumption).
+      pose proof (drain_empties (S (length (builders s1))) s1 out_nil (le_n _)) as Y.
+      destruct (drain (S (length (builders s1))) s1 out_nil) as [s2 o]. cbn [fst] in *. apply exit_acc, Y.
+Qed.
+
+(* ---------- no work signal pending => nothing with content is queued ---------- *)
+Local Transparent publish_sent run_loop drain do_build publish_error.
+
+Definition AllEmpty (bs : list bld) : Prop := Forall (fun b => bld_empty b = true) bs.
+Definition QInv (s : mq) : Prop := work s = false -> AllEmpty (builders s).
+
+Lemma all_empty_qsum bs : Forall BInv bs -> AllEmpty bs -> qsum bs = 0.
+Proof.
+  induction bs as [|b bs IH]; intros HF HE; [reflexivity|].
+  inversion HF as [|? ? [_ Hb] HF']; inversion HE as [|? ? He HE']; subst.
+  simpl. rewrite (Hb He), (IH HF' HE'). reflexivity.
+Qed.
+
+Lemma scrub_empty rs b : bld_empty b = true -> bld_empty (fst (scrub_bld rs b)) = true.
+Proof.
+  unfold bld_empty, scrub_bld, scrub_kept. cbn [fst b_blocks b_resp].
+  destruct (b_blocks b); [|discriminate]. destruct (b_resp b); [|discriminate]. reflexivity.
+Qed.
+
+Lemma scrub_all_empty rs bs : AllEmpty bs ->
+  filter (fun x => negb (bld_empty x)) (map fst (map (scrub_bld rs) bs)) = [].
+Proof.
+  induction bs as [|b bs IH]; intro H; [reflexivity|]. inversion H; subst.
+  cbn [map filter]. rewrite (scrub_empty rs b) by assumption. cbn [negb]. auto.
+Qed.
+
+Lemma publish_error_q s b : QInv s -> QInv (fst (publish_error s b)).
+Proof.
+  unfold QInv, publish_error. cbn [fst set_fields work builders]. intros H Hw.
+  rewrite (scrub_all_empty _ _ (H Hw)). constructor.
+Qed.
+Lemma publish_error_ph s b : ph (fst (publish_error s b)) = ph s /\ done (fst (publish_error s b)) = done s.
+Proof. unfold publish_error. cbn. auto. Qed.
+Lemma publish_sent_q s b : QInv s -> QInv (fst (publish_sent s b)).
+Proof. unfold QInv, publish_sent. cbn. auto. Qed.
+Lemma publish_sent_ph s b : ph (fst (publish_sent s b)) = ph s.
+Proof. reflexivity. Qed.
+
+Lemma upd_last_forall2 (P : bld -> Prop) f bs l : Forall P bs -> last_opt bs = Some l -> P (f l) -> Forall P (upd_last f bs).
+Proof.
+  induction bs as [|b bs IH]; intros H Hl Hf; [constructor|]. inversion H; subst. destruct bs as [|b2 bs].
+  - inversion Hl; subst. constructor; auto.
+  - change (upd_last f (b :: b2 :: bs)) with (b :: upd_last f (b2 :: bs)). constructor; auto.
+Qed.
+
+Lemma do_build_q s r ops : QInv s -> QInv (fst (do_build s r ops)).
+Proof.
+  unfold QInv, do_build. intro H.
+  destruct (mem_req r (closed s)); [exact H|]. destruct (done s); [exact H|].
+  set (need_new := match last_opt (builders s) with
+                   | None => true
+                   | Some last => if ops_size ops =? 0 then false else max_block_size <? b_blk last + ops_size ops end).
+  assert (Hbs : let bs := fst (if need_new then (builders s ++ [bld_new (next_topic s)], next_topic s + 1) else (builders s, next_topic s)) in
+                (AllEmpty (builders s) -> AllEmpty bs) /\ exists l, last_opt bs = Some l).
+  { destruct need_new eqn:En; cbn [fst].
+    - split; [intro A; apply Forall_app; split; [exact A | constructor; [reflexivity | constructor]] |
+              eexists; apply last_opt_snoc].
+    - split; [auto|]. unfold need_new in En. destruct (last_opt (builders s)) as [l|]; [eauto | discriminate]. }
+  destruct (if need_new then (builders s ++ [bld_new (next_topic s)], next_topic s + 1) else (builders s, next_topic s)) as [bs nt].
+  cbn [fst] in Hbs. destruct Hbs as (HA & l & Hl).
+  destruct (upd_last_sum (build_ops r ops) bs l Hl) as [_ Hlast]. rewrite Hlast.
+  cbn [fst work builders]. destruct (bld_empty (build_ops r ops l)) eqn:Ee; [|discriminate].
+  intro Hw. eapply upd_last_forall2; [apply HA, H, Hw | exact Hl | exact Ee].
+Qed.
+
+Lemma drain_q fuel s acc : (length (builders s) < fuel)%nat -> QInv (fst (drain fuel s acc)).
+Proof. intros Hl _. rewrite (drain_empties fuel s acc Hl). constructor. Qed.
+
+Lemma run_loop_q : forall fuel s acc, QInv s -> QInv (fst (run_loop fuel s acc)).
+Proof.
+  induction fuel as [|f IH]; intros s acc H; [exact H|]. cbn [run_loop].
+  destruct (work s) eqn:Ew, (done s) eqn:Ed.
+  - intro Hw. discriminate Hw.
+  - destruct (skip_empty (builders s)) as [|b rest] eqn:E.
+    + apply IH. intros _. constructor.
+    + destruct (has_sender s); cbn [fst]; unfold QInv; cbn [set_fields work builders];
+        (destruct rest; [constructor | discriminate]).
+  - pose proof (drain_empties (S (length (builders s))) s acc (le_n _)) as Y.
+    destruct (drain (S (length (builders s))) s acc) as [s1 o]. cbn [fst] in *. intros _. cbn. rewrite Y. constructor.
+  - unfold QInv. cbn. intros _. apply H, Ew.
+Qed.
+
+(* the goroutine only parks idle with no signal pending: two turns of the loop always suffice *)
+Lemma run_loop_park f s acc : let s' := fst (run_loop (S (S f)) s acc) in ph s' = PIdle -> work s' = false.
+Proof.
+  cbn [run_loop]. destruct (work s) eqn:Ew, (done s) eqn:Ed.
+  - cbn. discriminate.
+  - destruct (skip_empty (builders s)) as [|b rest] eqn:E.
+    + cbn. reflexivity.
+    + destruct (has_sender s); cbn; discriminate.
+  - destruct (drain (S (length (builders s))) s acc) as [s1 o]. cbn. discriminate.
+  - cbn. reflexivity.
+Qed.
+
+Local Opaque publish_sent publish_error drain do_build.
+
+(* the state after a label, as far as the phase is concerned *)
+Definition Parked (s : mq) : Prop := QInv s /\ (ph s = PIdle -> work s = false).
+
+Lemma parked_loop s acc : QInv s -> Parked (fst (run_loop (loop_fuel s) s acc)).
+Proof. intro H. split; [apply run_loop_q, H | apply run_loop_park]. Qed.
+
+Lemma parked_set_done s : Parked s -> ph s <> PIdle ->
+  Parked (set_fields s (builders s) (alloc s) (has_sender s) (work s) true (ph s) (closed s)).
+Proof. intros [H1 H2] Hp. split; [exact H1 | cbn; intro; contradiction]. Qed.
+
+Lemma do_build_ph s r ops : ph (fst (do_build s r ops)) = ph s.
+Proof.
+  Local Transparent do_build. unfold do_build.
+  destruct (mem_req r (closed s)); [reflexivity|]. destruct (done s); [reflexivity|].
+  destruct (match last_opt (builders s) with Some last => if ops_size ops =? 0 then false else max_block_size <? b_blk last + ops_size ops | None => true end);
+    reflexivity.
+  Local Opaque do_build.
+Qed.
+
+Lemma qstep_parked s l : Parked s -> Parked (fst (qstep s l)).
+Proof.
+  intros [HQ HP]. destruct l as [r ops|ok| |tw]; unfold qstep.
+  - pose proof (do_build_q s r ops HQ) as H1. pose proof (do_build_ph s r ops) as Hp.
+    destruct (do_build s r ops) as [s1 o]. cbn [fst] in *.
+    destruct (ph s1) eqn:Ep; try (cbn [fst]; split; [exact H1 | rewrite Ep; discriminate]). apply parked_loop, H1.
+  - destruct (ph s) as [|b i initial|b i| |] eqn:Ep; try (cbn [fst]; split; [exact HQ | rewrite Ep; exact HP]).
+    + destruct ok.
+      * destruct initial; [split; [exact HQ | cbn; discriminate]|].
+        destruct (Nat.ltb (S i) max_retries); [split; [exact HQ | cbn; discriminate]|].
+        set (s0 := set_fields s (builders s) (alloc s) true (work s) (done s) PIdle (closed s)).
+        assert (H0 : QInv s0) by exact HQ. pose proof (publish_error_q s0 b H0) as H1.
+        destruct (publish_error s0 b) as [s1 o]. cbn [fst] in *. apply parked_loop, H1.
+      * set (s0 := set_fields s (builders s) (alloc s) false (work s) (done s) PIdle (closed s)).
+        assert (H0 : QInv s0) by exact HQ. pose proof (publish_error_q s0 b H0) as H1.
+        destruct (publish_error s0 b) as [s1 o]. cbn [fst] in *. apply parked_loop. exact H1.
+    + destruct ok.
+      * set (s0 := set_fields s (builders s) (alloc s) true (work s) (done s) PIdle (closed s)).
+        assert (H0 : QInv s0) by exact HQ. pose proof (publish_sent_q s0 b H0) as H1.
+        destruct (publish_sent s0 b) as [s1 o]. cbn [fst] in *. apply parked_loop, H1.
+      * destruct (done s) eqn:Ed.
+        -- set (s0 := set_fields s (builders s) (alloc s) false (work s) true PIdle (closed s)).
+           assert (H0 : QInv s0) by exact HQ. pose proof (publish_error_q s0 b H0) as H1.
+           destruct (publish_error s0 b) as [s1 o]. cbn [fst] in *. apply parked_loop, H1.
+        -- split; [exact HQ | cbn; discriminate].
+  - destruct (ph s) eqn:Ep; try (cbn [fst]; split; [exact HQ | cbn; discriminate]).
+    apply parked_loop. exact HQ.
+  - destruct (ph s) eqn:Ep; try (cbn [fst]; split; [exact HQ | rewrite Ep; exact HP]). destruct tw.
+    + set (s1 := set_fields s (builders s) (alloc s) (has_sender s) true false PIdle (closed s)).
+      assert (H1 : QInv s1) by (intro Hw; discriminate Hw).
+      pose proof (run_loop_q 1 s1 out_nil H1) as H2. destruct (run_loop 1 s1 out_nil) as [s2 o]. cbn [fst] in *.
+      set (s3 := set_fields s2 (builders s2) (alloc s2) (has_sender s2) (work s2) true (ph s2) (closed s2)).
+      assert (H3 : QInv s3) by exact H2.
+      destruct (ph s3) eqn:Ep3; try (cbn [fst]; split; [exact H3 | rewrite Ep3; discriminate]). apply parked_loop, H3.
+    + set (s1 := set_fields s (builders s) (alloc s) (has_sender s) false true PIdle (closed s)).
+      pose proof (drain_empties (S (length (builders s1))) s1 out_nil (le_n _)) as Y.
+      destruct (drain (S (length (builders s1))) s1 out_nil) as [s2 o]. cbn [fst] in *.
+      split; [intros _; cbn; rewrite Y; constructor | cbn; discriminate].
+Qed.
+
+(* ---------- histories ---------- *)
+Definition CInv (s : mq) : Prop := AccInvS s /\ Parked s.
+
+Lemma cinv_new : CInv mq_new.
+Proof.
+  split; [split; [constructor | reflexivity] | split; [intros _; constructor | reflexivity]].
+Qed.
+
+Lemma qstep_cinv s l : CInv s -> CInv (fst (qstep s l)).
+Proof. intros [A P]. split; [apply qstep_acc, A | apply qstep_parked, P]. Qed.
+
+Lemma qstep_h_cinv s l h : CInv s -> CInv (fst (qstep_h s l h)).
+Proof.
+  intro H. unfold qstep_h. pose proof (qstep_cinv s l H) as H1. destruct (qstep s l) as [s1 o1]. cbn [fst] in H1.
+  destruct (ph s1); try exact H1.
+  pose proof (qstep_cinv s1 (LPick h) H1) as H2. destruct (qstep s1 (LPick h)) as [s2 o2]. cbn [fst] in H2.
+  destruct (ph s2); try exact H2.
+  pose proof (qstep_cinv s2 (LPick h) H2) as H3. destruct (qstep s2 (LPick h)) as [s3 o3]. exact H3.
+Qed.
+
+(* the states in which the queue goroutine is parked after each label of a history *)
+Fixpoint q_states (s : mq) (ls : list (qlabel * bool)) : list mq :=
+  match ls with
+  | [] => []
+  | (l, h) :: r => let s' := fst (qstep_h s l h) in s' :: q_states s' r
+  end.
+
+Lemma q_states_cinv : forall ls s, CInv s -> Forall CInv (q_states s ls).
+Proof.
+  induction ls as [|[l h] ls IH]; intros s H; cbn [q_states]; [constructor|].
+  pose proof (qstep_h_cinv s l h H) as H1. constructor; [exact H1 | apply IH, H1].
+Qed.
+
+(* what the invariant says about the accounted memory *)
+Lemma cinv_accounting s : CInv s ->
+  alloc s = qsum (builders s) + inflight_size (ph s) /\
+  (ph s = PIdle -> alloc s = 0 /\ AllEmpty (builders s)) /\
+  (ph s = PExited -> alloc s = 0 /\ builders s = []).
+Proof.
+  intros [[HF Ha] [HQ HP]]. split; [|split].
+  - destruct (ph s); cbn [inflight_size];
+      [ lia | destruct Ha as [_ Ha]; exact Ha | destruct Ha as [_ Ha]; exact Ha | lia
+      | destruct Ha as (Ha & _ & Hb); rewrite Ha, Hb; reflexivity ].
+  - intro Hp. pose proof (HQ (HP Hp)) as HE. rewrite Hp in Ha. split; [|exact HE].
+    rewrite Ha. apply all_empty_qsum; assumption.
+  - intro Hp. rewrite Hp in Ha. destruct Ha as (Ha & _ & Hb). auto.
+Qed.
+
+Lemma sum_n_qsum bs : sum_n (map b_blk bs) = qsum bs.
+Proof. induction bs as [|b bs IH]; simpl; [reflexivity | rewrite IH; reflexivity]. Qed.
+
+Lemma cinv_mon15 univ s o : CInv s -> mon15_obs (q_observe univ s o) = true.
+Proof.
+  intro H. destruct (cinv_accounting s H) as (Ha & Hi & He).
+  unfold mon15_obs, q_observe. cbn [qo_sizes qo_alloc qo_phase]. rewrite sum_n_qsum.
+  destruct (ph s) eqn:Ep; cbn [phase_code inflight_size] in *.
+  - destruct (Hi eq_refl) as [H0 _]. rewrite Ha, N.add_0_r. cbn. rewrite N.leb_refl, N.eqb_refl. reflexivity.
+  - cbn. rewrite ?andb_true_r. apply N.leb_le. lia.
+  - cbn. rewrite ?andb_true_r. apply N.leb_le. lia.
+  - cbn. rewrite ?andb_true_r. apply N.leb_le. lia.
+  - destruct (He eq_refl) as [H0 Hb]. rewrite Hb, H0. reflexivity.
+Qed.
+
+Lemma q_run_mon15 : forall ls univ s, CInv s -> forallb mon15_obs (q_run univ s ls) = true.
+Proof.
+  induction ls as [|[l h] ls IH]; intros univ s H; cbn [q_run]; [reflexivity|].
+  pose proof (qstep_h_cinv s l h H) as H1. destruct (qstep_h s l h) as [s' o]. cbn [fst] in H1.
+  cbn [forallb]. rewrite (cinv_mon15 univ s' o H1), (IH univ s' H1). reflexivity.
+Qed.
+
+Theorem c15_accounting : forall ls s, In s (q_states mq_new ls) ->
+  alloc s = qsum (builders s) + inflight_size (ph s) /\
+  (ph s = PIdle -> alloc s = 0 /\ AllEmpty (builders s)) /\
+  (ph s = PExited -> alloc s = 0 /\ builders s = []).
+Proof.
+  intros ls s Hin. apply cinv_accounting.
+  pose proof (q_states_cinv ls mq_new cinv_new) as H. rewrite Forall_forall in H. apply H, Hin.
+Qed.
+
+Theorem c15_monitor : forall univ ls, forallb mon15_obs (q_run univ mq_new ls) = true.
+Proof. intros. apply q_run_mon15, cinv_new. Qed.
+
+(* a transaction's reservation: what is not turned into queued block bytes is returned in the same call,
+   and a refused build (stream closed, queue shut down) returns all of it *)
+Local Transparent do_build.
+Theorem c15_build_reservation : forall s r ops, CInv s ->
+  let s' := fst (do_build s r ops) in
+  alloc s' + qsum (builders s) = alloc s + qsum (builders s') /\
+  ((mem_req r (closed s) || done s) = true -> alloc s' = alloc s /\ builders s' = builders s).
+Proof.
+  intros s r ops [A P]. pose proof (do_build_acc s r ops A) as [A' Hp]. cbn zeta.
+  split.
+  - destruct A as [_ Ha], A' as [_ Ha']. rewrite Hp in Ha'. destruct (ph s).
+    + lia.
+    + destruct Ha, Ha'. lia.
+    + destruct Ha, Ha'. lia.
+    + lia.
+    + destruct Ha as (Ha & Hd & Hb). unfold do_build. destruct (mem_req r (closed s)); [reflexivity|]. rewrite Hd. reflexivity.
+  - unfold do_build. destruct (mem_req r (closed s)); [auto|]. destruct (done s); [auto | discriminate].
+Qed.
+Local Opaque do_build.
